@@ -691,6 +691,30 @@ def run_options(cs, rep, lines, pending, inp):
         rep.count("options:rows-checked")
 
 
+def make_fixed_append(rng, idx):
+    params = ["t"]
+    k = rng.choice([2, 3])
+    vals = rng.sample(range(0, 17, 4), k)                      # distinct, well separated parameter values
+    prows = [{"t": [str(Fr(v, 16))]} for v in vals]
+    va, vb = rng.choice([("x", "y"), ("y", "x"), ("x", "z")])
+    g0 = Gen(rng, params=[], p_dep=0.0)
+    g0.allow_rotate = g0.allow_translate = False
+    a = g0.prim(va)
+    from geomgen import c as C, PF, dy
+    T = ("v", "t", 0)
+    # the dependent operand moves by 4 units per unit of t: samples of different rows are far apart
+    if vb == "y":
+        lo = ("+", C(dy(rng, -2, 1)), ("*", C(Fr(4)), T))
+        b = Node("interval", "y", [PF([lo]), PF([("+", lo, C(dy(rng, 0.5, 1)))])])
+    else:
+        ctr = [("+", C(dy(rng, -2, 2)), ("*", C(Fr(4)), T))] + [C(dy(rng, -1, 1)) for _ in range(geomgen.DIM[vb] - 1)]
+        b = Node("circle" if vb == "x" else "sphere", vb, [PF(ctr), PF([C(dy(rng, 0.5, 1))])])
+    first_indep = rng.random() < 0.5
+    return dict(id=idx, stream="composed", comp="append", a=(a if first_indep else b).describe(), b=(b if first_indep else a).describe(),
+                kinds=(["grid", rng.choice(["uniform", "grid"])] if first_indep else [rng.choice(["uniform", "grid"]), "grid"]),
+                params=params, prows=prows, n=rng.choice([2, 3, 5]), d=2.0, seed=rng.randint(0, 2 ** 31 - 1))
+
+
 # ---------------------------------------------------------------------------------------------
 # implementation runs
 
@@ -1088,7 +1112,9 @@ def eval_composed(rep, item, replies):
 
 def run(ctx, rep, cases=None):
     if cases is None:
-        cases = []
+        # fixed share: `append` of a parameter-INDEPENDENT operand (grid / density: sampled once and tiled over the parameter rows)
+        # with a parameter-DEPENDENT one, 2-3 parameter rows — the row orders of the two code paths must agree
+        cases = [c_ for c_ in (make_fixed_append(ctx.rng, 10 ** 5 + j) for j in range(ctx.scale(8, 40))) if c_]
         want = ctx.scale(330, 3300)
         i = 0
         while len(cases) < want and i < 3 * want:
